@@ -72,9 +72,19 @@ def run(chk) -> None:
     nw = methods.get("next_wakeup_timeout")
     if nw is None:
         raise AnchorError("C31.R1: next_wakeup_timeout not found")
-    rets = [r.value for r in ast.walk(nw) if isinstance(r, ast.Return) and r.value is not None]
-    ok = any(isinstance(x, ast.Subscript) and ast.unparse(x) == "self.scheduled_wakeups[0]" for x in ast.walk(nw)) and any(param(nw, 1) in ast.unparse(r) and isinstance(r, ast.Call) and call_name(r) == "max" for r in rets)
-    chk.ob("C31.R1", "next_wakeup_timeout is the distance to the earliest heap entry", ok, m=m, node=nw, fn=nw, instance="timers:next-wakeup", reason=f"returns {[ast.unparse(r) for r in rets]}")
+    # evaluated from its AST on small heaps: None iff nothing is scheduled; otherwise max(0, earliest - now) — never negative, and
+    # never None for an entry that is already due (None means "wait without a timeout")
+    from ..absint import Interp, Raised, Record, Unsupported
+    bad_nw = ""
+    try:
+        for heap_, now_, want_ in (([], 5.0, None), ([(10.0, 0, "t")], 4.0, 6.0), ([(10.0, 0, "t")], 10.0, 0), ([(10.0, 0, "t")], 12.5, 0),
+                                   ([(3.0, 1, "a"), (7.0, 0, "b")], 1.0, 2.0), ([(3.0, 1, "a"), (7.0, 0, "b")], 5.0, 0)):
+            got_ = Interp().call_function(nw, {"self": Record("_ControlLoopRunner", scheduled_wakeups=list(heap_)), param(nw, 1): now_})
+            if not ((got_ is None and want_ is None) or (got_ is not None and want_ is not None and abs(got_ - want_) < 1e-9)):
+                bad_nw = bad_nw or f"heap {heap_}, now {now_}: returns {got_!r}, expected {want_!r}"
+    except (Unsupported, Raised) as e_:
+        raise AnchorError(f"C31.R1: cannot evaluate next_wakeup_timeout: {e_}")
+    chk.ob("C31.R1", "next_wakeup_timeout is the distance to the earliest heap entry (0 when it is already due, None only for an empty heap)", not bad_nw, m=m, node=nw, fn=nw, instance="timers:next-wakeup", reason=bad_nw)
 
     # ---------------------------------------------------------------- R2 timeout scheduled and reduced
     tt = [c for c in ast.walk(rn) if isinstance(c, ast.Call) and last(call_name(c)) == "schedule_tick" and c.args and isinstance(c.args[0], ast.Call) and last(call_name(c.args[0])) == "TickTimeout"]
